@@ -161,6 +161,11 @@ type Cfg struct {
 	// pod groups / queues WITHOUT the label key; otherwise those labelled PoolKey=PoolVal
 	PoolKey string `json:"poolKey"`
 	PoolVal string `json:"poolVal"`
+	// arguments of the minruntime plugin: defaults used when no queue on the resolution path sets a value (seconds,
+	// 0 = unset) and the reclaim resolve method ("" = "lca" | "queue")
+	DefMinRtP   int    `json:"defMinRtP"`
+	DefMinRtR   int    `json:"defMinRtR"`
+	MinRtMethod string `json:"minRtMethod"`
 }
 
 // InPool reports whether the node belongs to the scheduler's node pool.
